@@ -191,13 +191,22 @@ def check_program(e, L, spellings=("class", "method", "operator", "roperator"), 
             out.append({"name": nm, "status": "discharged", "detail": "identical text"})
             continue
         try:
-            refP = R.parse(rf.rx)
+            rr = re.compile(rf.rx, R.FLAGS)
         except Exception as x:
             out.append({"name": nm, "status": "error", "detail": "reference %r does not compile: %r" % (rf.rx, x)})
             continue
-        A = R.parse(pat)
+
+        class _G:
+            pass
+        A, refP = _G(), _G()
+        ra = re.compile(pat, R.FLAGS)
+        A.ngroups, A.names = ra.groups, dict(ra.groupindex)
+        refP.ngroups, refP.names = rr.groups, dict(rr.groupindex)
         if A.ngroups != refP.ngroups or A.names != refP.names:
-            text = some_match_text(rf.rx, L) or ""
+            try:
+                text = some_match_text(rf.rx, L) or ""
+            except Exception:
+                text = ""
             out.append({"name": nm, "status": "violated",
                         "detail": "%s emits %r with groups %d %r; expression spells %d %r" % (s, pat, A.ngroups, A.names, refP.ngroups, refP.names),
                         "inputs": {"src": s, "pattern": pat, "text": text, "groups": A.ngroups, "ref_groups": refP.ngroups},
@@ -214,6 +223,9 @@ def check_program(e, L, spellings=("class", "method", "operator", "roperator"), 
             res["detail"] = "%s emits %r, differs from reference %r on text %r" % (s, pat, rf.rx, text)
             res["inputs"] = {"src": s, "pattern": pat, "ref": rf.rx, "text": text}
             res["script"] = EQUIV_SCRIPT % dict(src=s, ref=rf.rx, text=text)
+        elif verdict == "unsupported" and mode == "C08" and "backreference" in info:
+            res["status"] = "discharged"
+            res["detail"] = "group structure equal (count and names); text semantics outside the encoding: %s" % info
         else:
             res["status"] = "inconclusive"
             res["detail"] = "%s %s" % (verdict, info)
@@ -228,8 +240,9 @@ def _exc_is_business(mode, got_exc, expect):
     if mode == "C05":
         # the Empty laws: EmptyNegativeAssertionException exactly when documented; nothing else may be raised by an
         # empty operand. Repeatability / fixed-width disagreements are C09 / C10's obligations.
-        names = {got_exc, expect[1] if expect[0] == "exc" else None}
-        return not (names & {"CannotBeRepeatedException", "NonFixedWidthPatternException"})
+        if expect[0] == "exc" and expect[1] in ("CannotBeRepeatedException", "NonFixedWidthPatternException"):
+            return False          # a missing rejection: C09 / C10
+        return True
     if mode == "C04":
         # bounds validation and CannotBeRepeated only for bounds above one
         return True
